@@ -640,9 +640,44 @@ class Renderer:
                 return "%s.eq(&%s)" % (self.rspan(n, n["left"]), self.rspan(n, n["right"]))
         return self.render_children(n)
 
+    # -- R20: a call of a new private helper without contract (no loops, no `return`/`?`, unambiguous name) is expanded in
+    #    place: { let __i0 = ARG0; ..; let p0 = __i0; ..; BODY[self := RECEIVER] }.  The caller's proof then sees what the
+    #    helper does, as it did before the statements were moved out.
+    def try_inline(self, name, recv_text, arg_nodes, parent, arg_texts=None):
+        h = getattr(self.ctx, "inlinable", {}).get(name)
+        if h is None or h.key == self.fn.key or self.plain or getattr(self, "inline_depth", 0) > 2:
+            return None
+        ins = h.node["inputs"]
+        has_recv = bool(ins and ins[0].get("receiver"))
+        params = [i for i in ins if not i.get("receiver")]
+        if has_recv != (recv_text is not None) or len(params) != len(arg_nodes):
+            return None
+        if recv_text is not None and not re.match(r"^[A-Za-z_][\w.]*$", recv_text.strip()):
+            return None
+        if any(not i.get("name") for i in params):
+            return None
+        sub = Renderer(h, FnRec(h.key, "(inlined)"), self.ctx)
+        sub.inline_depth = getattr(self, "inline_depth", 0) + 1
+        body = sub.block_of(h.node["tree"], h.node["body"])
+        btxt = sub.render_block(body, "", "", unit="ret_ty" not in h.node)
+        if recv_text is not None and recv_text.strip() != "self":
+            btxt = re.sub(r"(?<![\w.])self\b(?!\s*::)", recv_text.strip(), btxt)
+        if h.impl is not None and self.fn.impl is not None and compact(h.impl["self_ty_text"]) != compact(self.fn.impl["self_ty_text"]):
+            btxt = re.sub(r"\bSelf\b", re.sub(r"<.*", "", compact(h.impl["self_ty_text"])), btxt)
+        pre = "".join("let __i%d = %s;\n" % (k, arg_texts[k] if arg_texts else self.render(a)) for k, a in enumerate(arg_nodes))
+        pre += "".join("let %s%s = __i%d;\n" % ("mut " if i.get("mut") else "", i["name"], k) for k, i in enumerate(params))
+        self.log.append("R20 call of the new private helper `%s` expanded in place" % name)
+        self.inlined = getattr(self, "inlined", []) + [name]
+        return "{ " + pre + btxt + " }"
+
     # -- calls: path renames (trait methods that became inherent ones)
     def r_Call(self, n):
         ft = compact(n["func_text"])
+        tail_name = ft.split("::")[-1]
+        if tail_name in getattr(self.ctx, "inlinable", {}) and (ft == tail_name or ft.startswith("Self::") or ft.count("::") == 1):
+            r = self.try_inline(tail_name, None, [self.find(n, a) for a in n["args"]], n)
+            if r is not None:
+                return r
         for d in self.rw.get("call", []):
             if compact(d[0]) == ft:
                 self.log.append("R10 call %s -> %s" % (d[0], d[1]))
@@ -665,6 +700,10 @@ class Renderer:
             # comb <method>#<ord> <option|result|keep>
             if d[0] == "%s#%d" % (m, n["ord"]):
                 mode = d[1]
+        if m in getattr(self.ctx, "inlinable", {}):
+            r = self.try_inline(m, self.render(recv), args, n)
+            if r is not None:
+                return r
         for d in self.rw.get("mcall", []):
             # mcall <method>#<ord|*> <newname> : rename a method call (trait method made inherent)
             if d[0] in ("%s#%d" % (m, n["ord"]), m + "#*"):
@@ -756,6 +795,16 @@ class Renderer:
                 self.log.append("R2 .filter(closure) -> match #%d" % n["ord"])
                 return "(match %s { Some(__f) => { %s if %s { Some(__f) } else { None } }, None => None, })" % (
                     self.render(recv), bind, self.render(self.find(c, c["body"])))
+        # R2 + R20: E.map(helper) with a new private helper passed as a function value: eta-expanded, then expanded in place
+        if m in ("map", "and_then") and len(args) == 1 and args[0]["k"] == "Path" and mode != "keep" and not self.plain \
+                and compact(args[0].get("text", "")).split("::")[-1] in getattr(self.ctx, "inlinable", {}):
+            body = self.try_inline(compact(args[0]["text"]).split("::")[-1], None, [args[0]], n, arg_texts=["__x"])
+            if body is not None:
+                some, none_pat, none_val = ("Some", "None", "None") if (mode or "option") == "option" else ("Ok", "Err(__e)", "Err(__e)")
+                self.log.append("R2 .%s(function value) -> match (%s) #%d" % (m, mode or "option", n["ord"]))
+                if m == "map":
+                    return "(match %s { %s(__x) => %s(%s), %s => %s, })" % (self.render(recv), some, some, body, none_pat, none_val)
+                return "(match %s { %s(__x) => %s, %s => %s, })" % (self.render(recv), some, body, none_pat, none_val)
         # R2: Option / Result combinators with a literal closure
         if m in ("map", "and_then", "map_or") and args and args[-1]["k"] == "Closure" and mode != "keep":
             c = args[-1]
@@ -1144,6 +1193,25 @@ def generate(outdir, stub=None, probe=False, nohints=None):
         for sub in im["items"]:
             if sub["kind"] == "type":
                 ctx.assoc.setdefault((mod, tyname), {})[sub["name"]] = sub["ty"]
+    # R20 candidates: functions without overlay record that are private inherent / free helpers, straight-line
+    # (no loop, no `return`, no `?`), not recursive, with a name nothing else in the crate or in the stubs uses
+    stub_text = "".join(open(os.path.join(VERIF, "contracts", f)).read() for f in ("prelude.vrs", "indexmap_stub.vrs", "serde_stub.vrs"))
+    COMMON = set("new len push pop insert get remove clear iter next map and_then unwrap clone eq cmp from into default drop swap replace extend reserve capacity contains".split())
+    ctx.inlinable = {}
+    names_all = [f.name for f in fns]
+    for fn in fns:
+        if fn.key in recs or (fn.impl is not None and fn.impl.get("trait")) or fn.node.get("vis", "") == "pub":
+            continue
+        kinds = set(x["k"] for x in walk_tree(fn.node["tree"]))
+        if kinds & {"While", "ForLoop", "Loop", "Return", "Try", "Closure"}:
+            continue
+        nm = fn.name
+        if names_all.count(nm) != 1 or nm in COMMON or re.search(r"\bfn %s\b" % re.escape(nm), stub_text):
+            continue
+        calls = [x["method"] for x in walk_tree(fn.node["tree"]) if x["k"] == "MethodCall"] + [compact(x["func_text"]).split("::")[-1] for x in walk_tree(fn.node["tree"]) if x["k"] == "Call"]
+        if nm in calls:
+            continue
+        ctx.inlinable[nm] = fn
     table = {}
     by_mod = {}
     missing = []
@@ -1240,6 +1308,14 @@ def generate(outdir, stub=None, probe=False, nohints=None):
             entry["reason"] = rec.attrs.get("reason", "")
             text = text.replace("*/\n", "*/\n#[verifier::external_body]\n", 1)
         entry["rewrites"] = r0log + r.log
+        inl = getattr(r, "inlined", [])
+        if inl:
+            mentions = [x["method"] for x in walk_tree(fn.node["tree"]) if x["k"] == "MethodCall"] \
+                + [compact(x["func_text"]) for x in walk_tree(fn.node["tree"]) if x["k"] == "Call" and "::" not in x["func_text"]] \
+                + [compact(x.get("text", "")).split("::")[-1] for x in walk_tree(fn.node["tree"]) if x["k"] == "Path" and "::" in x.get("text", "")]
+            done = [nm for nm in set(inl) if mentions.count(nm) == inl.count(nm)]
+            entry["callees"] = [c for c in entry.get("callees", []) if c not in done]
+            entry["inlined"] = sorted(set(inl))
         entry["nopanic"] = [t.strip() for t in rec.attrs.get("nopanic", "").split(",") if t.strip()]
         entry["sites"] = count_sites(fn.node["tree"])
         entry["gen_name"] = rec.attrs.get("name", fn.name)
